@@ -21,7 +21,7 @@ func genC04(c *Ctx) {
 	inputs := []string{"-", "1", "1,1", "0,1,2", "1,2,2,3", "0,0,1,2,2", "2,1,0", "0,1,2,3,4,5,6"}
 	unary := []string{
 		"map add:1", "map mul:2", "filter mod:2:0", "filter ff", "filter tt", "limit 0", "limit 1", "limit 2", "limit 9",
-		"skip 0", "skip 1", "skip 3", "skip 9",
+		"skip 0", "skip 1", "skip 3", "skip 9", "skip -1", "skip -4", "limit -1",
 		"window 1 1 0", "window 2 1 0", "window 2 2 0", "window 3 2 0", "window 3 2 1", "window 3 3 0", "window 3 1 1", "window 2 1 1", "window 4 3 0",
 		"cluster 1 first", "cluster 2 first", "cluster 2 sum", "cluster 2 firstk:1", "cluster 2 firstk:2", "cluster 3 none", "cluster 2 firstprev", "cluster 1 firstprev", "cluster 2 firstk:0",
 	}
@@ -46,6 +46,16 @@ func genC04(c *Ctx) {
 				c.Case(true, fmt.Sprintf("window 2 1 0 map sum %s src 0 %s skip 1 src 1 %s || collect all nofault", k, in, in2))
 			}
 			c.Case(true, fmt.Sprintf("concat 3 src 0 %s src 1 - src 2 %s || collect take:3 nofault", in, in2))
+		}
+	}
+	// several consecutive empty inner streams, zero / one input, skip and limit below and above them
+	for _, k := range []string{
+		"concat 4 src 0 1 src 1 - src 2 - src 3 2", "concat 5 src 0 - src 1 - src 2 1,2 src 3 - src 4 3", "concat 1 src 0 1,2", "concat 0",
+		"zip 1 src 0 1,2,3", "zip 0", "merge 1 src 0 1,2", "merge 0", "zip 3 src 0 1,2 src 1 - src 2 3",
+		"skip -1 concat 3 src 0 1 src 1 - src 2 2,3", "limit 2 skip -2 src 0 1,2,3", "skip 2 skip -1 skip 1 src 0 1,2,3,4,5",
+	} {
+		for _, t := range terms {
+			c.Case(true, k+" || "+t)
 		}
 	}
 	n := c.Pick(6000, 120000)
